@@ -20,6 +20,7 @@ type engine struct {
 	ups   map[string]*upstream // by name
 	ports map[string]int       // listener name -> port
 	dead  string               // an address nobody listens on
+	hole  *blackhole           // an address whose connects time out (never accepted, never refused)
 	cfg   *mosnConfig
 }
 
@@ -52,6 +53,11 @@ func newEngineWith(c *lab.Ctx, protos []string, routes func(proto string) []rout
 	ports := freePorts(len(protos) + 2)
 	e.dead = fmt.Sprintf("127.0.0.1:%d", ports[len(protos)])
 	cfg := &mosnConfig{}
+	hole, herr := startBlackhole()
+	if herr != nil {
+		return nil, herr
+	}
+	e.hole = hole
 	for i, p := range protos {
 		// every cluster gets its own upstream servers: MOSN keys connection pools by host address, so clusters
 		// sharing an address would share pools and breaker books
@@ -95,6 +101,16 @@ func newEngineWith(c *lab.Ctx, protos []string, routes func(proto string) []rout
 			}
 			return cl
 		}
+		// cl-<proto>-hole: connects TIME OUT (150 ms); cl-<proto>-holemix: such an address + one live host
+		hostsHoleMix, err := mkHosts("n")
+		if err != nil {
+			return nil, err
+		}
+		holeHost := jmap{"address": hole.addr, "hostname": "hole", "weight": 1}
+		hostsHoleMix = append([]jmap{holeHost}, hostsHoleMix...)
+		clHole, clHoleMix := mk("cl-"+p+"-hole", []jmap{holeHost}), mk("cl-"+p+"-holemix", hostsHoleMix)
+		clHole["connect_timeout"], clHoleMix["connect_timeout"] = "150ms", "150ms"
+		cfg.Clusters = append(cfg.Clusters, clHole, clHoleMix)
 		cfg.Clusters = append(cfg.Clusters, mk("cl-"+p, hosts), mk("cl-"+p+"-lim", hostsLim), mk("cl-"+p+"-one", hostsOne), mk("cl-"+p+"-mix", hostsMix), mk("cl-"+p+"-empty", []jmap{}), mk("cl-"+p+"-dead", []jmap{{"address": e.dead, "hostname": "dead", "weight": 1}}))
 		var rs []jmap
 		for _, r := range routes(p) {
